@@ -48,8 +48,8 @@ func hRange15(tag string, lo, hi int) InclusiveRange {
 	return InclusiveRange{Begin: vfIntRange(tag+".begin", lo, hi), End: vfIntRange(tag+".end", lo, hi)}
 }
 
-// VerifC15_ContainsTime: for every accepted interval specification with up to two
-// ranges per field (each field possibly absent) and every minute of 1970..2099,
+// VerifC15_ContainsTime: for every accepted interval specification with one range per
+// field (thorough: two for times and days of month; each field possibly absent) and every minute of 1970..2099,
 // ContainsTime equals the documented meaning: minute-of-day in a [start,end) range,
 // weekday/month/year in an inclusive range, day of month in a range whose negative
 // bounds count from the month's end and which is clamped to the month; an absent
@@ -64,11 +64,12 @@ func hRange15(tag string, lo, hi int) InclusiveRange {
 func VerifC15_ContainsTime() {
 	t := vfCalendarTime("t")
 	var ti TimeInterval
-	nr := 1 + vfTier() // ranges per field
+	nr := 1             // ranges per field ...
+	nr2 := 1 + vfTier() // ... two for the fields with the richer semantics (times, days of month) in the thorough tier
 	// accepted specifications (what the config validators let through)
 	hasTimes, hasDays, hasDOM, hasMonths, hasYears := vfBool("hasTimes"), vfBool("hasWeekdays"), vfBool("hasDaysOfMonth"), vfBool("hasMonths"), vfBool("hasYears")
 	if hasTimes {
-		for i := 0; i < nr; i++ {
+		for i := 0; i < nr2; i++ {
 			tr := TimeRange{StartMinute: vfIntRange("tr.start", 0, 1440), EndMinute: vfIntRange("tr.end", 0, 1440)}
 			vfAssume(tr.StartMinute < tr.EndMinute)
 			ti.Times = append(ti.Times, tr)
@@ -82,7 +83,7 @@ func VerifC15_ContainsTime() {
 		}
 	}
 	if hasDOM {
-		for i := 0; i < nr; i++ {
+		for i := 0; i < nr2; i++ {
 			r := hRange15("dom", -31, 31)
 			vfAssume(r.Begin != 0 && r.End != 0)
 			vfAssume(!(r.Begin < 0 && r.End > 0))
